@@ -11,10 +11,18 @@
    the real Config::load_from_path -> generate_config_messages -> ConfigState::dispatch, compares, reloads.
    SIZE axis: valid one-cluster files replicated n times, n over the boundaries of an 8-bit message counter.
 
+Two universes are enumerated (constant Focus of the spec): "all" - every optional key, the breadth - and "identity" -
+only the keys that take part in the identity of a declared object (frontend: address, hostname, path, path kind,
+method; certificate: address, fingerprint; ...) plus the non-identity decoys (position, tags), one listener, no
+backends, one size step deeper - so that for every identity field the generated files hold two objects that agree on
+everything else (vacuity guard `pair_hits`, computed by the spec: IdentityPairs / DecoyPairs).  Self-test slips (a state
+key that forgets one identity field) must be refuted by TLC.
+
 `--replay <violation.json>` re-runs the abstract file of a saved violation only.
 """
 import json
 import os
+from concurrent.futures import ThreadPoolExecutor
 
 import vlib
 
@@ -22,12 +30,13 @@ PID = "C20"
 
 CFG = """SPECIFICATION Spec
 CONSTANTS
-  MaxListeners = 2
+  MaxListeners = %(maxl)d
   MaxClusters = 2
   MaxFronts = 2
-  MaxBacks = 2
+  MaxBacks = %(maxb)d
   MaxSize = %(size)d
   Deviations = %(dev)s
+  Focus = "%(focus)s"
   Emit = %(emit)s
 %(checks)s
 CHECK_DEADLOCK FALSE
@@ -48,11 +57,24 @@ def tla_set(xs):
     return "{" + ", ".join('"%s"' % x for x in xs) + "}"
 
 
-def write_cfg(wd, name, size, dev, emit):
+# self-test slips of the spec: a state key that forgets one field of an object's identity; TLC must refute each
+SLIPS = ["FrontKeyDropsMethod", "BackendKeyDropsAddress", "CertKeyDropsAddress"]
+# <<kind, field>> pairs (two declared objects that differ in this identity field only) the generated VALID files must
+# witness, and the non-identity decoys (two frontends of one routing key that differ in this field only).
+# Not reachable within the bounds: https_front/pkind (size 8).
+PAIRS = (["pair:%s:%s" % (k, f) for k in ("http_front", "https_front") for f in ("addr", "host", "path", "method")]
+         + ["pair:http_front:pkind", "pair:tcp_front:cluster", "pair:tcp_front:addr", "pair:udp_front:cluster",
+            "pair:udp_front:addr", "pair:listener:addr", "pair:cert:addr", "pair:cert:cert", "pair:backend:addr",
+            "pair:backend:id", "decoy:front:position", "decoy:front:tags"])
+# (focus, listeners, backends) of the universes; the identity universe goes one size step deeper
+UNIVERSES = [("all", 2, 2, 0), ("identity", 1, 0, 1)]
+
+
+def write_cfg(wd, name, size, dev, emit, focus="all", maxl=2, maxb=2):
     path = os.path.join(wd, name)
     with open(path, "w") as f:
-        f.write(CFG % {"size": size, "dev": tla_set(dev), "emit": "TRUE" if emit else "FALSE",
-                       "checks": "INVARIANTS EmitFile" if emit else CHECKS})
+        f.write(CFG % {"size": size, "dev": tla_set(dev), "emit": "TRUE" if emit else "FALSE", "focus": focus,
+                       "maxl": maxl, "maxb": maxb, "checks": "INVARIANTS EmitFile" if emit else CHECKS})
     return path
 
 
@@ -89,31 +111,65 @@ def run(tier, replay=None):
             if not rc["violated"]:
                 vlib.require_actions_covered(rc, ACTIONS)
             runs.append(rc)
-        r = vlib.tlc("ConfigFile", write_cfg(wd, "mc.cfg", size_mc, [], False), PID, workers=workers,
-                     timeout=3000 if thorough else 600, xmx="6g" if thorough else "4g")
-        rep.add_tlc(r)
-        runs.append(r)
+        # the TLC runs of one stage are independent: run them side by side (the workers are shared out, <= 8 in quick)
+        pool = ThreadPoolExecutor(max_workers=4)
+        side = ThreadPoolExecutor(max_workers=2)      # deviation / slip runs, one TLC worker each
+        share = {"all": workers // 2, "identity": workers // 4}
+        gshare = {"all": workers - workers // 3, "identity": workers // 3}
+        mcs = [pool.submit(vlib.tlc, "ConfigFile",
+                           write_cfg(wd, "mc_%s.cfg" % focus, size_mc + deeper, [], False, focus, maxl, maxb), PID,
+                           workers=share[focus], timeout=3000 if thorough else 600, xmx="6g" if thorough else "4g")
+               for (focus, maxl, maxb, deeper) in UNIVERSES]
+        # 2. each open deviation must still break the property in the model, and so must each self-test slip
+        #    (identity universe with backends, size 5: the smallest files with two certificates / two backends of one id)
+        dev_runs = [(d, "open deviation", side.submit(vlib.tlc, "ConfigFile", write_cfg(wd, "mc_dev_%s.cfg" % d, 4, [d], False),
+                                                     PID, workers=1, timeout=600)) for d in devs]
+        dev_runs += [(d, "self-test slip", side.submit(vlib.tlc, "ConfigFile",
+                                                      write_cfg(wd, "mc_slip_%s.cfg" % d, 5, [d], False, "identity", 1, 2),
+                                                      PID, workers=1, timeout=600)) for d in SLIPS]
+        for fut in mcs:
+            r = fut.result()
+            rep.add_tlc(r)
+            runs.append(r)
         for x in runs:
             if x["violated"]:
                 rep.violation("spec:" + x["violated"], "the specification itself violates %s" % x["violated"], x["out"])
                 break
-        # 2. each open deviation must still break the property in the model
-        for d in devs:
-            rd = vlib.tlc("ConfigFile", write_cfg(wd, "mc_dev.cfg", 4, [d], False), PID, workers=workers, timeout=600)
+        for d, what, fut in dev_runs:
+            rd = fut.result()
             rep.add_tlc(rd)
             if not rd["violated"]:
-                raise vlib.ToolError("deviation %s no longer violates P_C20 in the model" % d)
-            vlib.log("deviation %s: TLC counterexample to %s as expected" % (d, rd["violated"]))
-        # 3. generator
-        with open(beh, "w") as f:
-            g = vlib.tlc("ConfigFile", write_cfg(wd, "gen.cfg", size_gen, devs, True), PID, workers=workers,
-                         timeout=3000, want_replay=True, xmx="6g" if thorough else "4g",
-                         replay_sink=lambda o: f.write(json.dumps(o) + "\n"))
-        rep.add_tlc(g)
-        if g["violated"]:
-            raise vlib.ToolError("generator run reported a violation: %s" % g["violated"])
-        if g["n_replays"] != g["distinct"]:
-            raise vlib.ToolError("generator printed %d files for %d states" % (g["n_replays"], g["distinct"]))
+                raise vlib.ToolError("%s %s no longer violates P_C20 in the model" % (what, d))
+            vlib.log("%s %s: TLC counterexample to %s as expected" % (what, d, rd["violated"]))
+        # 3. generators, one per universe, side by side; their files are replayed as one stream
+        parts = [os.path.join(wd, "files_%s.ndjson" % focus) for (focus, _, _, _) in UNIVERSES]
+
+        def generate(u, part):
+            focus, maxl, maxb, deeper = u
+            with open(part, "w") as f:
+                return vlib.tlc("ConfigFile", write_cfg(wd, "gen_%s.cfg" % focus, size_gen + deeper, devs, True, focus, maxl, maxb),
+                                PID, workers=gshare[focus], timeout=3000, want_replay=True, xmx="6g" if thorough else "4g",
+                                replay_sink=lambda o: f.write(json.dumps(o) + "\n"))
+        gens = [f.result() for f in [pool.submit(generate, u, part) for u, part in zip(UNIVERSES, parts)]]
+        pool.shutdown()
+        side.shutdown()
+        g = {"n_replays": 0}
+        for x in gens:
+            rep.add_tlc(x)
+            if x["violated"]:
+                raise vlib.ToolError("generator run reported a violation: %s" % x["violated"])
+            if x["n_replays"] != x["distinct"]:
+                raise vlib.ToolError("generator printed %d files for %d states" % (x["n_replays"], x["distinct"]))
+            g["n_replays"] += x["n_replays"]
+        with open(beh, "wb") as out:
+            for part in parts:
+                with open(part, "rb") as f:
+                    while True:
+                        chunk = f.read(1 << 22)
+                        if not chunk:
+                            break
+                        out.write(chunk)
+                os.remove(part)
 
     # 4. replay on the real loader
     args = ["--seed", str(vlib.seed()), "--threads", "16", "--renderings", "3" if thorough else "2",
@@ -134,6 +190,9 @@ def run(tier, replay=None):
         idle = [a for a in ACTIONS if not summ["action_hits"].get(a)]
         if idle:
             raise vlib.ToolError("vacuous generator run: editing actions witnessed by no generated file: %s" % idle)
+        unseen = [x for x in PAIRS if not summ["pair_hits"].get(x)]
+        if unseen:
+            raise vlib.ToolError("vacuous generator run: no generated file holds two objects differing only in: %s" % unseen)
         if summ["scale_runs"] == 0:
             raise vlib.ToolError("vacuous run: the SIZE leg found no file to replicate")
     rep.cov["traces_validated_against_impl"] = summ["runs"] + summ["scale_runs"]
@@ -144,6 +203,7 @@ def run(tier, replay=None):
     rep.extra["valid_files"] = summ["valid_files"]
     rep.extra["invalid_files_by_constraint"] = summ["constraint_hits"]
     rep.extra["files_witnessing_action"] = summ["action_hits"]
+    rep.extra["files_with_identity_pair"] = summ.get("pair_hits", {})
     rep.extra["size_axis"] = {"replications": SCALE_NS, "runs": summ["scale_runs"],
                               "largest_message_list": summ["scale_max_messages"]}
     if summ["deviation_explained"]:
